@@ -18,6 +18,12 @@ def dispatch (op : String) (payload : Json) : R Json :=
   | "imports" => C12.handle payload
   | "diag_run" => C15.handle payload
   | "diag_render" => C15.handleRender payload
+  | "resolve_import" => C06.handle payload
+  | "import_symbols" => C06.handleSymbols payload
+  | "import_spec" => C06.handleSpec payload
+  | "annotation" => C11.handleAnnotation payload
+  | "file_decision" => C11.handleDecision payload
+  | "is_name" => C11.handleIsName payload
   | _ => .error s!"unknown op {op}"
 
 partial def loop (h : IO.FS.Stream) (out : IO.FS.Stream) : IO Unit := do
